@@ -77,14 +77,14 @@ def corpus(tier):
     chars = [{"source": "const char t[10] = {'\\a','\\b','\\f','\\v','\\n','\\r','\\t','\\0','\\\\','\\''};\nvoid main() { X = t[0]; }\n", "args": ["-O0"],
               "expect": {"panic": False, "must_compile": True, "stdout_contains": "ARRAY t size=10 = 7 8 12 11 10 13 9 0 92 39"}, "note": "the ten escapes as character constants in a table"},
              {"source": "unsigned char c;\nvoid main() { c = '\\a'; }\n", "args": ["-O0"], "expect": {"panic": False, "must_compile": True, "stdout_contains": "LDA #7"}, "note": "'\\a' in an expression"}]
-    from . import u_strscan
-    return [("literal-extent", ["C09"], u_strscan.candidates(None)), ("character-constants", ["C09"], chars), ("macro-forms", ["C08", "C07"], macros), ("constant-destinations-rejected", ["C13", "C01"], rejected), ("error-locations", ["C06"], loc), ("error-locations-inside-a-statement", ["C06"], multi), ("no-panic", ["C16"], nopanic)]
+    from . import u_strscan, u_tablelit
+    return [("literal-extent", ["C09"], u_strscan.candidates(None)), ("literal-in-a-table", ["C09"], u_tablelit.candidates(None)), ("character-constants", ["C09"], chars), ("macro-forms", ["C08", "C07"], macros), ("constant-destinations-rejected", ["C13", "C01"], rejected), ("error-locations", ["C06"], loc), ("error-locations-inside-a-statement", ["C06"], multi), ("no-panic", ["C16"], nopanic)]
 
 
 def build(repo):
     u = Unit(NAME, TOOL, PROPS, [],
              assumptions=["BOUNDED: only the listed programs are covered"],
-             bounded=["the program lists of units/u_errs.py: 6 literals with backslashes before a quote, 2 character-constant programs, 11 macro forms, 3 rejected stores, 9 located errors, 3 located errors inside multi-line statements (known finding), 15 inputs that used to panic or could"])
+             bounded=["the program lists of units/u_errs.py: 6 literals with backslashes before a quote, 4 literals with non-ASCII text in a table / an initialiser, 2 character-constant programs, 11 macro forms, 3 rejected stores, 9 located errors, 3 located errors inside multi-line statements (known finding), 15 inputs that used to panic or could"])
     u.text[None] = ""
     u.dropped = ["nothing is extracted: the whole compiler runs (vf/probe)"]
     return u
